@@ -380,13 +380,16 @@ func (r *Runner) shutdown(ctx context.Context) error {
 	logger := r.logger.WithGroup("shutdown")
 	logger.Debug("Shutting down HTTP server")
 
+	// Take the mutex first: a Reload in progress holds it until it has left the Reloading
+	// state, and the transition to Stopping is refused from Reloading.
+	r.mutex.Lock()
+
 	// Begin shutdown by transitioning to Stopping state
 	if err := r.fsm.Transition(finitestate.StatusStopping); err != nil {
 		logger.Error("Failed to transition to stopping state", "error", err)
 		// Continue shutdown even if state transition fails
 	}
 
-	r.mutex.Lock()
 	err := r.stopServer(ctx)
 	r.mutex.Unlock()
 
